@@ -112,11 +112,8 @@ def main():
     if only:
         muts = [m for m in muts if any(o in m["file"] for o in only)]
     print("%d candidate mutants (%d already done)" % (len(muts), len(done)), flush=True)
-    saved = os.path.join(VERIF, "build", "evidence.saved.auto")
-    shutil.rmtree(saved, ignore_errors=True)
-    shutil.copytree(os.path.join(VERIF, "evidence"), saved)
     n = 0
-    try:
+    if True:   # (check.py writes evidence only for runs against /repo itself)
         for m in muts:
             if (m["file"], m["line"], m["new"], m["op"]) in done:
                 continue
@@ -162,10 +159,6 @@ def main():
             with open(out, "a") as f:
                 f.write(json.dumps(rec) + "\n")
             print("%s:%d [%s] %s  ==> %s %s" % (m["file"], m["line"], m["op"], m["old"][:60], rec["status"], rec.get("checks")), flush=True)
-    finally:
-        shutil.rmtree(os.path.join(VERIF, "evidence"))
-        shutil.copytree(saved, os.path.join(VERIF, "evidence"))
-        shutil.rmtree(saved)
 
 
 if __name__ == "__main__":
